@@ -73,6 +73,15 @@ def impl(case):
     if case["k"] == "round":
         orig = curve_state(curve)
         curve.degree_increase(case["elevate"])
+    # the same operation on a float copy first, in the same process (matrices memoised per degree must not carry
+    # the number class of an earlier call into exact data)
+    def _other():
+        c2 = Curve([float(u) for u in nums(case["U"])], [float(nums(pt)[0]) for pt in case["P"]])
+        c2.degree_increase(1)
+        c2.degree_increase(2)
+    capture(_other)
+    import implib
+    implib.FLOATS.clear()
     before = curve_state(curve)
     op = case["op"]
 
